@@ -412,3 +412,7 @@ SUBCHECKS = [
         note='8 coverage-guided libFuzzer campaigns x 120000 executions (7 seeded with reference encodings, 1 from an empty corpus); '
              'oracle = raw-bytes inside the target; executions are reported under classes atheris:executions'),
 ]
+
+# the same generated cases, several at a time, checked by threads that run at the same time (core.run_overlapping): per-call state
+# kept in a place two calls share shows only there
+SUBCHECKS.append(__import__('harness.core', fromlist=['overlapped']).overlapped(next(s for s in SUBCHECKS if s.name == 'foreign-encodings'), k=3, n=(40, 1500)))
